@@ -1,5 +1,6 @@
 import Driver.C01
 import Driver.C06
+import Driver.C07
 import Driver.C11
 import Driver.C13
 
@@ -8,6 +9,7 @@ def dispatch (p : String) (rest : List String) : String :=
   match p with
   | "C01" => C01.handle rest
   | "C06" => C06.handle rest
+  | "C07" => C07.handle rest
   | "C11" => C11.handle rest
   | "C13" => C13.handle rest
   | _ => "bad unknown-property " ++ p
